@@ -316,7 +316,7 @@ def mdp_specs(
         pU = {"none": 0.0, "sparse": 0.25, "dense": 0.5}[densU]
         T = [draw(st.floats(0, 1)) < pT for _ in range(nS)]
         U = [draw(st.floats(0, 1)) < pU for _ in range(nS)]
-        if draw(st.booleans()) and any(T):
+        if draw(st.integers(0, 3)) == 0 and any(T):
             # bias toward a state that is terminal AND truncated
             U[T.index(True)] = True
         imode = draw(st.sampled_from(["single", "full", "free"]))
